@@ -123,9 +123,16 @@ template <class M, class K> bool sameMat(const M& A, int n, const std::vector<K>
   return true;
 }
 
+// round four: set by execLine for the current case
+//   g_mixed: `solve` is called with x and b of the *other* vector family (V1 != V2 in DenseMatrix::solve:
+//            FieldMatrix with x a DynamicVector and b a FieldVector, DynamicMatrix with x a FieldVector and b a
+//            DynamicVector; DiagonalMatrix::solve<V> with DynamicVector)
+//   g_twice: `invert` is applied twice to the same object (second use of the object)
+static bool g_mixed = false, g_twice = false;
+
 // piv: 1 / 0 = explicit argument, 2 = call without the optional argument
-template <class K, class M, class V>
-Raw<K> runDense(M& A, V& x, V& bv, const std::string& op, int n, int piv, const std::vector<K>& a,
+template <class K, class M, class VX, class VB>
+Raw<K> runDense(M& A, VX& x, VB& bv, const std::string& op, int n, int piv, const std::vector<K>& a,
                 const std::vector<K>& b) {
   Raw<K> r;
   fill(A, n, a);
@@ -134,7 +141,7 @@ Raw<K> runDense(M& A, V& x, V& bv, const std::string& op, int n, int piv, const 
       // x starts with garbage: the result must not depend on what the caller left in x
       for (int i = 0; i < n; ++i) { bv[i] = b[i]; x[i] = K(double(1000 + 7 * i)); }
       const M& cA = A;
-      const V& cb = bv;
+      const VB& cb = bv;
       try {
         if (piv == 2) cA.solve(x, cb); else cA.solve(x, cb, piv == 1);
         for (int i = 0; i < n; ++i) r.out.push_back(x[i]);
@@ -155,6 +162,7 @@ Raw<K> runDense(M& A, V& x, V& bv, const std::string& op, int n, int piv, const 
     } else if (op == "invert") {
       try {
         if (piv == 2) A.invert(); else A.invert(piv == 1);
+        if (g_twice) { if (piv == 2) A.invert(); else A.invert(piv == 1); }
         for (int i = 0; i < n; ++i)
           for (int j = 0; j < n; ++j) r.out.push_back(A[i][j]);
       } catch (Dune::FMatrixError&) {
@@ -188,12 +196,24 @@ template <class K, int n> Raw<K> runFM(const std::string& op, int piv, const std
       r.other = "bad-op";
     return r;
   }
+  if (g_mixed && op == "solve") {
+    Dune::DynamicVector<K> xd(n, K(0));
+    return runDense<K>(A, xd, bv, op, n, piv, a, b);
+  }
   return runDense<K>(A, x, bv, op, n, piv, a, b);
 }
 
 template <class K> Raw<K> runDM(const std::string& op, int n, int piv, const std::vector<K>& a, const std::vector<K>& b) {
   Dune::DynamicMatrix<K> A(n, n, K(0));
   Dune::DynamicVector<K> x(n, K(0)), bv(n, K(0));
+  return runDense<K>(A, x, bv, op, n, piv, a, b);
+}
+
+// DynamicMatrix::solve with x a FieldVector and b a DynamicVector
+template <class K, int n> Raw<K> runDMx(const std::string& op, int piv, const std::vector<K>& a, const std::vector<K>& b) {
+  Dune::DynamicMatrix<K> A(n, n, K(0));
+  Dune::FieldVector<K, n> x(K(0));
+  Dune::DynamicVector<K> bv(n, K(0));
   return runDense<K>(A, x, bv, op, n, piv, a, b);
 }
 
@@ -207,7 +227,17 @@ template <class K, int n> Raw<K> runDiag(const std::string& op, const std::vecto
     return true;
   };
   try {
-    if (op == "solve") {
+    if (op == "solve" && g_mixed) {
+      Dune::DynamicVector<K> x(n, K(double(1000 + n))), bv(n, K(0));
+      for (int i = 0; i < n; ++i) bv[i] = b[i];
+      const auto& cD = D;
+      const auto& cb = bv;
+      cD.solve(x, cb);
+      for (int i = 0; i < n; ++i) r.out.push_back(x[i]);
+      bool sb = true;
+      for (int i = 0; i < n; ++i) sb = sb && (bv[i] == b[i]);
+      r.inputsChanged = !same() || !sb;
+    } else if (op == "solve") {
       Dune::FieldVector<K, n> x(K(0)), bv;
       for (int i = 0; i < n; ++i) bv[i] = b[i];
       const auto& cD = D;
@@ -223,6 +253,7 @@ template <class K, int n> Raw<K> runDiag(const std::string& op, const std::vecto
       r.inputsChanged = !same();
     } else if (op == "invert") {
       D.invert();
+      if (g_twice) D.invert();
       for (int i = 0; i < n; ++i) r.out.push_back(D.diagonal(i));
     } else
       r.other = "bad-op";
@@ -239,6 +270,20 @@ template <class K, int n> Raw<K> runDiag(const std::string& op, const std::vecto
 template <class K>
 Raw<K> runAny(const std::string& op, const std::string& rep, int n, int piv, const std::vector<K>& a,
               const std::vector<K>& b) {
+  if (rep == "dm" && g_mixed && op == "solve") {
+    switch (n) {
+      case 1: return runDMx<K, 1>(op, piv, a, b);
+      case 2: return runDMx<K, 2>(op, piv, a, b);
+      case 3: return runDMx<K, 3>(op, piv, a, b);
+      case 4: return runDMx<K, 4>(op, piv, a, b);
+      case 5: return runDMx<K, 5>(op, piv, a, b);
+      case 6: return runDMx<K, 6>(op, piv, a, b);
+      case 7: return runDMx<K, 7>(op, piv, a, b);
+    }
+    Raw<K> r;
+    r.other = "bad-op";
+    return r;
+  }
   if (rep == "dm") return runDM<K>(op, n, piv, a, b);
   if (rep == "fm") {
     switch (n) {
@@ -348,6 +393,15 @@ static Result execGF(const std::string& op, const std::string& rep, int n, int p
   if (r.threw) {
     res.impl = "ERR:FMatrix";
     if (!mustThrow) fail("FMatrixError for a matrix with determinant " + std::to_string(det));
+    return res;
+  }
+  if (g_twice) {
+    // A.invert(); A.invert();  must give A back (nonsingular) or have reported FMatrixError (singular, n >= 4)
+    res.impl = listOf(out);
+    if (mustThrow) { fail("invert (twice) returned numbers for a singular matrix"); return res; }
+    for (size_t t = 0; t < al.size() && t < out.size(); ++t)
+      if (out[t] != al[t]) { fail("A.invert(); A.invert(); does not restore A (entry " + std::to_string(t) + ")"); break; }
+    if (out.size() != al.size()) fail("A.invert(); A.invert(); returned a matrix of another size");
     return res;
   }
   if (op == "solve") {
@@ -847,12 +901,24 @@ static Result execLine(const std::string& line) {
   if (w.size() != 6 && w.size() != 7) return bad;
   FieldTok ft;
   if (!parseFieldTok(w[0], ft)) return bad;
-  const std::string &field = ft.base, &op = w[1], &rep = w[2];
+  const std::string& field = ft.base;
+  std::string op = w[1], rep = w[2];
+  g_mixed = g_twice = false;
+  if (rep == "fmx" || rep == "dmx" || rep == "diagx") {
+    if (op != "solve" || field == "v64") return bad;
+    g_mixed = true;
+    rep.pop_back();
+  }
+  if (op == "inv2") {
+    if (field != "gf" || w[4] == "0") return bad;
+    g_twice = true;
+    op = "invert";
+  }
   if (w[3].empty() || w[3].find_first_not_of("0123456789") != std::string::npos || w[3].size() > 2) return bad;
   int n = std::atoi(w[3].c_str());
   if (w[4] != "0" && w[4] != "1" && w[4] != "d") return bad;
   // (a 0x0 DynamicMatrix is not an admissible operand: DynamicMatrix::mat_cols() asserts rows() > 0)
-  if (n < 1 || n > (rep == "dm" ? 10 : 7)) return bad;
+  if (n < 1 || n > (rep == "dm" && !g_mixed ? 10 : 7)) return bad;
   int piv = w[4] == "1" ? 1 : w[4] == "0" ? 0 : 2;
   bool needB = op == "solve";
   if (needB != (w.size() == 7)) return bad;
@@ -863,8 +929,8 @@ static Result execLine(const std::string& line) {
   if (field != "gf" && field != "f64" && field != "ld" && field != "c64" && field != "v64") return bad;
   size_t cnt = rep == "diag" ? n : n * n;
   stat("field_" + field);
-  stat("op_" + op);
-  stat("rep_" + rep);
+  stat("op_" + w[1]);
+  stat("rep_" + w[2]);
   stat("n_" + std::to_string(n));
   if (rep != "diag") stat(piv == 1 ? "pivoting_on" : piv == 0 ? "pivoting_off" : "pivoting_default_argument");
   if (ft.hasLimit) stat("absolute_limit_set");
@@ -1186,7 +1252,11 @@ static std::string gen(Rng& g, long idx, const Args& args) {
   bool piv = rep == "diag" ? true : g.coin(3, 5);
   // the optional argument left out (only meaningful for the dense representations)
   bool dflt = rep != "diag" && piv && g.coin(1, 5);
-  const std::string tail = " " + op + " " + rep + " " + std::to_string(n) + " " + (dflt ? "d" : piv ? "1" : "0") + " ";
+  // round four: solve with x and b of the other vector family; the same object inverted twice (exact field)
+  std::string opTok = op, repTok = rep;
+  if (op == "solve" && field != "v64" && n <= 7 && g.coin(1, 6)) { repTok = rep + "x"; stat("gen_mixed_vector_types"); }
+  if (op == "invert" && field == "gf" && piv && g.coin(1, 6)) { opTok = "inv2"; stat("gen_invert_twice"); }
+  const std::string tail = " " + opTok + " " + repTok + " " + std::to_string(n) + " " + (dflt ? "d" : piv ? "1" : "0") + " ";
   if (field == "gf") {
     os << field << limitSuffix(g) << tail;
     std::string kind;
